@@ -43,7 +43,10 @@ ProbeStrs == << "a eq 1",
                 "geo.length(r) gt geography'LINESTRING(1 2, 3 4)",
                 "geo.intersects(r, geography'POINT(1 2)')",
                 \* an in-list with repeated items (order and arity are part of the result)
-                "status in ('open', 'closed', 'on hold', 'open') or id in (3, 1, 2, 3, 1)" >>
+                "status in ('open', 'closed', 'on hold', 'open') or id in (3, 1, 2, 3, 1)",
+                \* a syntax error AT a slash (a lexer that switches mode after "/" must switch back), then inputs that
+                \* begin with a keyword
+                "(a)/b eq 1", "a/", "null eq x", "not a", "true" >>
 NProbes == Len(ProbeStrs)
 ProbeCps == [i \in 1..NProbes |-> StrCps(ProbeStrs[i])]
 Outcome == [i \in 1..NProbes |-> ParseText(ProbeCps[i])]
